@@ -40,8 +40,65 @@ def load_known(prop):
 
 
 def run_leg(prop, leg, tier, binp, deadline_s, known, seed):
-    tag = "%s-%s" % (prop, leg["name"])
-    outdir = os.path.join(VERIF, "out")
+    """A leg with a "sweep" list (parameter sets generated in legs.py, e.g. every thread program over an alphabet) runs the
+    harness once per parameter set - each one explored exhaustively within the bound - and reports the sums."""
+    if not leg.get("sweep"):
+        return run_one(prop, leg, leg["name"], leg.get("params", {}), tier, binp, deadline_s, known, seed)
+    sw = leg["sweep"]
+    t0 = time.time()
+    agg = {"executions": 0, "states": 0, "transitions": 0, "pruned": 0, "choice_points": 0, "horizon_unresolved": 0, "violations": 0, "known": 0,
+           "distinct_outcomes": 0, "distinct_conflict_outcomes": 0, "exhaustive": True, "completed_bound": None, "violation_msgs": [], "known_msgs": {},
+           "samples": [], "replay": "", "engine_error": False, "engine_msg": "", "programs": len(sw), "programs_run": 0, "programs_exhaustive": 0}
+    rc, out, cmd0 = 0, "", ""
+    import concurrent.futures as cf
+    par = int(leg.get("sweep_par", 4)); jobs = max(1, 16 // par)
+    state = {"stop": False}
+
+    def one(i):
+        left = deadline_s - (time.time() - t0)
+        if state["stop"] or left < 1.0:
+            return i, None
+        p = dict(leg.get("params", {})); p.update(sw[i])
+        # fair share of what is left for the items not yet started, times a generous factor; small explorations finish far earlier
+        share = max(1.5, min(left, 8.0 * left * par / max(1, len(sw) - i)))
+        return i, run_one(prop, leg, "%s-%03d" % (leg["name"], i), p, tier, binp, share, known, seed, jobs)
+
+    with cf.ThreadPoolExecutor(max_workers=par) as ex:
+        for i, r in ex.map(one, range(len(sw))):
+            prm = sw[i]
+            if r is None:
+                agg["exhaustive"] = False
+                continue
+            cmd0 = cmd0 or r["cmd"]
+            res = r["res"]
+            if res is None or r["rc"] == 2 or res.get("engine_error"):
+                if not agg["engine_error"]:
+                    agg["engine_error"] = True; agg["engine_msg"] = "sweep item %d %s: %s" % (i, prm, (res or {}).get("engine_msg") or r["out"][-800:]); rc = 2
+                state["stop"] = True
+                continue
+            agg["programs_run"] += 1
+            agg["programs_exhaustive"] += 1 if res.get("exhaustive") else 0
+            for k in ("executions", "states", "transitions", "pruned", "choice_points", "horizon_unresolved", "violations", "known", "distinct_outcomes", "distinct_conflict_outcomes"):
+                agg[k] += int(res.get(k) or 0)
+            agg["exhaustive"] = agg["exhaustive"] and bool(res.get("exhaustive"))
+            cb = res.get("completed_bound")
+            agg["completed_bound"] = cb if agg["completed_bound"] is None else min(agg["completed_bound"], cb if cb is not None else -1)
+            for k, n in (res.get("known_msgs") or {}).items():
+                agg["known_msgs"][k] = agg["known_msgs"].get(k, 0) + n
+            if len(agg["samples"]) < 2 and res.get("samples"):
+                smp = dict(res["samples"][0]); smp["params"] = prm; agg["samples"].append(smp)
+            if res.get("violations", 0) > 0 or r["rc"] == 1:
+                rc = 1 if rc == 0 else rc
+                agg["violation_msgs"] += ["[%s] %s" % (" ".join("%s=%s" % kv for kv in prm.items()), m) for m in res.get("violation_msgs", [])[:2]]
+                if not agg["replay"]:
+                    agg["replay"] = res.get("replay", "")
+                state["stop"] = True
+    return {"leg": leg, "rc": rc, "out": out, "res": agg, "wall": time.time() - t0, "cmd": cmd0 + "   (x %d parameter sets)" % len(sw), "bound": leg["bound"][0 if tier == "quick" else 1]}
+
+
+def run_one(prop, leg, name, params, tier, binp, deadline_s, known, seed, jobs=None):
+    tag = "%s-%s" % (prop, name)
+    outdir = os.environ.get("VF_OUT_DIR") or os.path.join(VERIF, "out")
     os.makedirs(os.path.join(outdir, "replays"), exist_ok=True)
     os.makedirs(os.path.join(outdir, "json"), exist_ok=True)
     js = os.path.join(outdir, "json", tag + ".json")
@@ -49,13 +106,13 @@ def run_leg(prop, leg, tier, binp, deadline_s, known, seed):
         os.remove(js)
     bound = leg["bound"][0 if tier == "quick" else 1]
     cmd = [binp, "-b", str(bound), "-tag", tag, "-json", js, "-replaydir", os.path.join(outdir, "replays"),
-           "-deadline", "%.1f" % deadline_s, "-j", str(leg.get("jobs", 16))]
+           "-deadline", "%.1f" % deadline_s, "-j", str(jobs or leg.get("jobs", 16))]
     for f in leg.get("flags", []):
         cmd.append(f)
     if tier == "thorough":
         for f in leg.get("flags_thorough", []):
             cmd.append(f)
-    for k, v in leg.get("params", {}).items():
+    for k, v in params.items():
         cmd += ["-p", "%s=%s" % (k, v)]
     for k in known:
         if k["leg"] == "*" or leg["name"].startswith(k["leg"]):
@@ -206,15 +263,18 @@ def main():
                       "exhaustive_within_bound": (r["res"] or {}).get("exhaustive"), "executions": (r["res"] or {}).get("executions"),
                       "states": (r["res"] or {}).get("states"), "transitions": (r["res"] or {}).get("transitions"),
                       "distinct_outcomes": (r["res"] or {}).get("distinct_outcomes"), "violations": (r["res"] or {}).get("violations"),
-                      "known_findings_hit": (r["res"] or {}).get("known"), "wall_s": round(r["wall"], 2)} for r in results],
+                      "known_findings_hit": (r["res"] or {}).get("known"), "wall_s": round(r["wall"], 2),
+                      **({"parameter_sets": (r["res"] or {}).get("programs"), "parameter_sets_explored": (r["res"] or {}).get("programs_run"),
+                          "parameter_sets_exhaustive": (r["res"] or {}).get("programs_exhaustive"), "sweep": r["leg"].get("sweep_what", "")} if r["leg"].get("sweep") else {})} for r in results],
             "explanation": P.get("explanation", ""),
         },
         "assumptions": P.get("assumptions", []) + L.COMMON_ASSUMPTIONS,
         "wall_s": round(time.time() - t_start, 2), "violations": len(violations),
         "build_s": round(t_build, 2),
     }
-    os.makedirs(os.path.join(VERIF, "evidence"), exist_ok=True)
-    with open(os.path.join(VERIF, "evidence", prop + ".json"), "w") as f:
+    evdir = os.environ.get("VF_EVIDENCE_DIR") or os.path.join(VERIF, "evidence")   # redirected only when trying seeded changes in a scratch tree
+    os.makedirs(evdir, exist_ok=True)
+    with open(os.path.join(evdir, prop + ".json"), "w") as f:
         json.dump(ev, f, indent=1)
     env_probe("end")
     for k in known:
